@@ -233,7 +233,7 @@ func (m *Manager) CreateAllocation( // nolint: cyclop
 	m.log.Debugf("Listening on relay address: %s", alloc.RelayAddr)
 
 	alloc.lifetimeTimer = time.AfterFunc(lifetime, func() {
-		m.DeleteAllocation(alloc.fiveTuple)
+		m.deleteAllocation(alloc.fiveTuple, alloc)
 	})
 
 	m.lock.Lock()
@@ -259,10 +259,23 @@ func (m *Manager) CreateAllocation( // nolint: cyclop
 
 // DeleteAllocation removes an allocation.
 func (m *Manager) DeleteAllocation(fiveTuple *FiveTuple) {
+	m.deleteAllocation(fiveTuple, nil)
+}
+
+// deleteAllocation removes the allocation of the fiveTuple. If only is set, nothing is
+// removed unless that very allocation is still the one registered for the fiveTuple, so
+// that the expired timer or the failed relay handler of an allocation that is already
+// gone cannot delete a newer allocation made on the same 5-tuple.
+func (m *Manager) deleteAllocation(fiveTuple *FiveTuple, only *Allocation) {
 	fingerprint := fiveTuple.Fingerprint()
 
 	m.lock.Lock()
 	allocation := m.allocations[fingerprint]
+	if only != nil && allocation != only {
+		m.lock.Unlock()
+
+		return
+	}
 	delete(m.allocations, fingerprint)
 	m.lock.Unlock()
 
